@@ -111,6 +111,11 @@ pub const LEX_POOL: &[&str] = &[
     "{\"a\":1}",
     "[1,2]",
     "null",
+    "\u{664}\u{662}",
+    "\u{ff11}\u{ff12}",
+    "\u{967}.\u{96b}",
+    "\u{663}e\u{662}",
+    "-\u{6f1}",
     "@en",
     "^^",
     "_:b0",
@@ -321,6 +326,17 @@ pub fn draw_literal(t: &mut Tape, p: &Profile) -> MTerm {
         // concatenate two pool entries: escapes next to each other, next to token edges
         lex.push_str(LEX_POOL[t.below(LEX_POOL.len())]);
     }
+    if t.chance(1, 48) {
+        // a long run without any escape, around typical buffer sizes (a token that does not fit
+        // an internal buffer takes another path in buffered writers)
+        let n = [4095usize, 4096, 4097, 8192, 8193, 65_537][t.below(6)];
+        let unit = ["a", "\u{e9}", "ab ", "0"][t.below(4)];
+        let mut run = String::with_capacity(n + 4);
+        while run.len() < n {
+            run.push_str(unit);
+        }
+        lex.push_str(&run);
+    }
     if t.chance(1, 4) {
         // a few scalar values drawn by class, spliced at either end
         let n = t.range(1, 3);
@@ -355,6 +371,11 @@ pub fn draw_literal(t: &mut Tape, p: &Profile) -> MTerm {
 impl Alphabet {
     pub fn draw(t: &mut Tape, p: &Profile) -> Self {
         let mut iris = draw_subset(t, IRI_POOL, 2, 6);
+        if t.chance(1, 64) {
+            // a very long IRI (data:-like): one token far beyond any internal buffer
+            let n = [4096usize, 5000, 9000][t.below(3)];
+            iris.push(format!("http://example.org/long/{}", "a".repeat(n)));
+        }
         if t.chance(1, 3) {
             for _ in 0..t.range(1, 2) {
                 let i = draw_iri(t);
